@@ -154,12 +154,6 @@ theorem run_bind {α β : Type} (c : Comp α) (f : α → Comp β) (ctx : Ctx) :
   | getKey s k ih => simp only [Comp.bind, Comp.run]; exact ih _
   | panic m => rfl
 
-/-- The context a function body sees: `{i}` is the value of the call's `i`-th argument in the caller's
-    match, a missing argument is empty, named keys are the caller's. -/
-def argCtx (ctx : Ctx) (nargs : Nat) (vals : List Bytes) : Ctx :=
-  { getMatch := fun i => if i < 0 then ctx.getMatch i else if i ≥ nargs then [] else vals.getD i.toNat [],
-    getKey := ctx.getKey }
-
 theorem withArgs_run {α : Type} (args : List Stage) (ctx : Ctx) (vals : List Bytes)
     (hargs : args.map (·.run ctx) = vals.map .ok) (c : Comp α) :
     (withArgs args c).run ctx = c.run (argCtx ctx args.length vals) := by
@@ -194,7 +188,7 @@ theorem withArgs_run {α : Type} (args : List Stage) (ctx : Ctx) (vals : List By
 
 /-! ### the definitions-file joiner -/
 
-def clean (l : Bytes) : Bytes := trimSpaceAscii (trimAfterHash l)
+def clean (l : Bytes) : Bytes := trimSpaceGo (trimAfterHash l)
 
 /-- Specification of the joiner on already cleaned, non-blank lines: a line ending in `\` continues
     into the next one (the backslash dropped, nothing inserted). -/
@@ -210,7 +204,7 @@ theorem joinPhrases_eq_groupCont (lines : List Bytes) : ∀ sb,
   | cons l rest ih =>
     intro sb
     simp only [joinPhrases, List.map_cons, List.filter_cons, clean]
-    by_cases he : (trimSpaceAscii (trimAfterHash l)).isEmpty = true
+    by_cases he : (trimSpaceGo (trimAfterHash l)).isEmpty = true
     · simp only [he, if_true, Bool.not_true, Bool.false_eq_true, if_false]; exact ih sb
     · simp only [he, Bool.false_eq_true, if_false, Bool.not_false, if_true, groupCont]
       split
